@@ -15,6 +15,14 @@ CHECKS = {
          "After every client frame of every explored execution each entity's values must equal the server snapshot at the entity's confirmed tick; all hold/reorder/drop patterns of mutate messages within the bound are enumerated.", "§5 C02"),
  "C03": ("stateless deviation-bounded exhaustive exploration of real Apps, per-frame structural oracle",
          "After every client frame the client's structure and entity map must equal the per-client structural snapshot at its update tick, for every structural history and reliable-channel delay pattern within the bound.", "§5 C03"),
+ "C04": ("stateless deviation-bounded exhaustive exploration of real Apps with an event vocabulary; delivery-time oracle",
+         "Every history of structural operations and event emissions and every relative delay between the update channel and the event channels within the bound is executed; at each delivery the client's update tick and the resolved references are checked.", "§5 C04"),
+ "C05": ("stateless deviation-bounded exhaustive exploration of real Apps (1-3 clients) against a recipient-list reference model",
+         "All emission / connect / disconnect sequences and per-channel hold, reverse and drop schedules within the bound are executed; deliveries are compared with the intended-recipient sets fixed at emission, per-type order, sender identity and a wire scan for re-sends.", "§5 C05"),
+ "C07": ("stateless deviation-bounded exhaustive exploration of real Apps under the three authorization methods; per-frame wire oracle",
+         "For every history and every delay of the handshake within the bound, every message sent to a connected but unauthorized client must be on an independent channel; convergence after authorization; mismatch handling.", "§5 C07"),
+ "C08": ("stateless deviation-bounded exhaustive exploration of real Apps under both visibility policies; wire scan, visibility-query oracle and twin-execution differential",
+         "All sequences of visibility calls, lifecycle operations and ticks within the bound are executed; every message is scanned for payloads of entities hidden from its recipient, is_visible is compared with the last call, and a second client is compared with a twin execution.", "§5 C08"),
 }
 ALL = ["C%02d" % i for i in range(1, 19)]
 NOT_YET = "check not built yet in this session (work in progress; see DESIGN.md §5)"
